@@ -199,11 +199,18 @@ def run(ctx):
             check_string(ctx, {"s": "".join(seq)})
     ctx.info["exhaustive_token_sequences"] = f"all {k} sequences of <= {bound} tokens over {vocab}"
     hyp_run(ctx, "strings", string_strategy(ctx), check_string, ctx.n(8000, 80000))
-    pool = st.one_of(G.grammar_strings(8), st.sampled_from(["x + 1", "2x", "(", "x +", "4 / 2", "1.2.3", "x ? y", "", " ", "sgn(x)", "x = 2", "x y z", ")x("]))
+    pool = st.one_of(G.grammar_strings(8), st.sampled_from(["x + 1", "2x", "(", "x +", "4 / 2", "1.2.3", "x ? y", "", " ", "sgn(x)", "x = 2", "x y z", ")x(", "7 + 1 2", "7 + 12", "s gn(3)", "sgn(3)", "12 4", "x 2", "(((((( 1 +", "(1 + 2) * x", "4 * -(3)", "4 * -3"]))
     hist = st.lists(pool, min_size=2, max_size=8).flatmap(
         lambda xs: st.lists(st.integers(0, len(xs) - 1), min_size=0, max_size=4).map(lambda rep: {"history": xs + [xs[i] for i in rep]})
     )
     hyp_run(ctx, "histories", hist, check_history, ctx.n(1500, 12000))
+    # deterministic long histories on one parser: a failure, then hundreds of distinct texts; repeated failures
+    long1 = ["4x +"] + [f"{k}x + {k + 1}" for k in range(400)] + ["4x +", "x + 1"]
+    long2 = ["(((((((((( 1 + "] * 40 + ["(1 + 2) * x", "4 * sgn(x)"] + ["sgn(sgn(sgn(sgn(sgn(sgn(sgn(sgn(1"] * 40 + ["4 * sgn(x)"]
+    for h in (long1, long2):
+        ctx.count("evaluations")
+        ctx.count("long_histories")
+        check_history(ctx, {"history": h})
     if ctx.tier == "thorough":
         from . import fuzz
 
